@@ -66,7 +66,9 @@ def run_aero_point(surfaces, flow, **kw):
 
 def aero_outputs(prob, surfaces):
     out = {"CL": float(prob.get_val("pt.CL")[0]), "CD": float(prob.get_val("pt.CD")[0]), "CM": np.array(prob.get_val("pt.CM")),
-           "circulations": np.array(prob.get_val("pt.circulations"))}
+           "circulations": np.array(prob.get_val("pt.circulations")),
+           "L": float(prob.get_val("pt.total_perf.L")[0]), "D": float(prob.get_val("pt.total_perf.D")[0]),
+           "S_ref_total": float(prob.get_val("pt.total_perf.S_ref_total")[0])}
     for s in surfaces:
         n = s["name"]
         out[n] = dict(
